@@ -811,19 +811,15 @@ func reifyDuration(
 	val value,
 	_ reflect.Type,
 ) (reflect.Value, Error) {
-	var d time.Duration
-	var err error
-
-	// a setting that is one reference takes the referenced value with its
-	// type: a number means seconds there as well
-	src := val
-	if dyn, ok := val.(*cfgDynamic); ok {
-		if v, err := dyn.getValue(opts.opts); err == nil && v != nil {
-			src = v
-		}
+	d, err := durationOf(opts.opts, val)
+	if err != nil {
+		return reflect.Value{}, raiseInvalidDuration(val, err)
 	}
+	return reflect.ValueOf(d), nil
+}
 
-	switch v := src.(type) {
+func durationOf(opts *options, val value) (d time.Duration, err error) {
+	switch v := val.(type) {
 	case *cfgInt:
 		d = time.Duration(v.i) * time.Second
 	case *cfgUint:
@@ -832,20 +828,22 @@ func reifyDuration(
 		d = time.Duration(v.f * float64(time.Second))
 	case *cfgString:
 		d, err = time.ParseDuration(v.s)
+	case *cfgDynamic:
+		// a setting that is one reference takes the referenced value with its
+		// type: a number means seconds there as well
+		v.withValue(&err, opts, func(ref value) {
+			d, err = durationOf(opts, ref)
+		})
 	default:
 		var s string
-		s, err = val.toString(opts.opts)
+		s, err = val.toString(opts)
 		if err != nil {
-			return reflect.Value{}, raiseInvalidDuration(val, err)
+			return 0, err
 		}
 
 		d, err = time.ParseDuration(s)
 	}
-
-	if err != nil {
-		return reflect.Value{}, raiseInvalidDuration(val, err)
-	}
-	return reflect.ValueOf(d), nil
+	return d, err
 }
 
 func reifyRegexp(
